@@ -21,7 +21,7 @@ From Coq Require Import List String Bool ZArith QArith.
 Import ListNotations.
 From NV Require Import Crash.Outcome Crash.NumOps Crash.NumOpsProofs Crash.Index Crash.IndexProofs
   Crash.Lexer Crash.LexerProofs Crash.Span Crash.SpanProofs Crash.NameReg Crash.NameRegProofs
-  Crash.Defects Crash.MergeDispatch Crash.MergeDispatchProofs Crash.TomlFloats Crash.TomlFloatsProofs Gen.PanicSites.
+  Crash.Defects Crash.MergeDispatch Crash.MergeDispatchProofs Crash.TomlFloats Crash.TomlFloatsProofs Crash.TypePos Crash.TypePosProofs Gen.PanicSites.
 Open Scope string_scope.
 
 Inductive coverage : Type :=
@@ -32,6 +32,40 @@ Inductive coverage : Type :=
 | Unproved (why : string).
 
 Definition ledger : list (string * coverage) := [
+  ("core/src/ast/compat.rs::FromMainline<'ast, term::Term> for Node<'ast>::from_mainline:debug_assert#1",
+   Unproved "runtime term -> AST conversion used by the REPL (:load, feature repl, not compiled into the harness): variants without an AST counterpart panic; property C12 owns the REPL (finding panic:load)");
+  ("core/src/ast/compat.rs::FromMainline<'ast, term::Term> for Node<'ast>::from_mainline:panic#1",
+   Unproved "runtime term -> AST conversion used by the REPL (:load, feature repl, not compiled into the harness): variants without an AST counterpart panic; property C12 owns the REPL (finding panic:load)");
+  ("core/src/ast/compat.rs::FromMainline<'ast, term::Term> for Node<'ast>::from_mainline:panic#2",
+   Unproved "runtime term -> AST conversion used by the REPL (:load, feature repl, not compiled into the harness): variants without an AST counterpart panic; property C12 owns the REPL (finding panic:load)");
+  ("core/src/ast/compat.rs::FromMainline<'ast, term::Term> for Node<'ast>::from_mainline:panic#3",
+   Unproved "runtime term -> AST conversion used by the REPL (:load, feature repl, not compiled into the harness): variants without an AST counterpart panic; property C12 owns the REPL (finding panic:load)");
+  ("core/src/ast/compat.rs::FromMainline<'ast, NickelValue> for Ast<'ast>::from_mainline:unimplemented#1",
+   Unproved "runtime term -> AST conversion used by the REPL (:load, feature repl, not compiled into the harness): variants without an AST counterpart panic; property C12 owns the REPL (finding panic:load)");
+  ("core/src/ast/compat.rs::From<&term::UnaryOp> for PrimOp::from:panic#1",
+   Unproved "runtime-only primops have no AST counterpart; only reached through from_mainline (REPL)");
+  ("core/src/ast/compat.rs::From<&term::UnaryOp> for PrimOp::from:panic#2",
+   Unproved "runtime-only primops have no AST counterpart; only reached through from_mainline (REPL)");
+  ("core/src/ast/compat.rs::From<&term::BinaryOp> for PrimOp::from:panic#1",
+   Unproved "runtime-only primops have no AST counterpart; only reached through from_mainline (REPL)");
+  ("core/src/ast/compat.rs::FromAst<record::FieldDef<'ast>> for (FieldName, term::record::Field)::from_ast:unwrap#1",
+   Unproved "field paths produced by the parser are never empty (grammar fact, not modelled)");
+  ("core/src/ast/compat.rs::FromAst<record::FieldDef<'ast>> for (FieldName, term::record::Field)::from_ast:unwrap#2",
+   Unproved "field paths produced by the parser are never empty (grammar fact, not modelled)");
+  ("core/src/ast/compat.rs::FromAst<Type<'ast>> for term::LabeledType::from_ast:panic#1",
+   ByTheorem "no_panic_labeled_type" _ no_panic_labeled_type "the type of an annotation always has a position: the grammar sets it (WithPos) after fix_type_vars for let / inline / pattern / include annotations and before it for record fields, and every node rebuilt by fix_type_vars keeps the position of the node it replaces (build_fixed); tied by the annotation matrix of checks/c10_gen.py (every annotation position x type shape x identifier kind); types built elsewhere with Type::from are not annotations");
+  ("core/src/ast/compat.rs::FromAst<Type<'ast>> for term::LabeledType::from_ast:unwrap#1",
+   ByTheorem "no_panic_labeled_type" _ no_panic_labeled_type "the type of an annotation always has a position: the grammar sets it (WithPos) after fix_type_vars for let / inline / pattern / include annotations and before it for record fields, and every node rebuilt by fix_type_vars keeps the position of the node it replaces (build_fixed); tied by the annotation matrix of checks/c10_gen.py (every annotation position x type shape x identifier kind); types built elsewhere with Type::from are not annotations");
+  ("core/src/ast/compat.rs::FromAst<Ast<'ast>> for NickelValue::from_ast:index#1",
+   Unproved "args[i] of a primop application: arity fixed by the grammar rule that built the node (not modelled)");
+  ("core/src/ast/compat.rs::FromAst<Ast<'ast>> for NickelValue::from_ast:index#2",
+   Unproved "args[i] of a primop application: arity fixed by the grammar rule that built the node (not modelled)");
+  ("core/src/ast/compat.rs::FromAst<Ast<'ast>> for NickelValue::from_ast:index#3",
+   Unproved "args[i] of a primop application: arity fixed by the grammar rule that built the node (not modelled)");
+  ("core/src/ast/compat.rs::merge_fields:unreachable#1",
+   ByTheorem "no_panic_select_value" _ no_panic_select_value "same selection by priority as eval/merge.rs merge_fields (== / > / < of MergePriority are exhaustive)");
+  ("core/src/ast/compat.rs::merge_fields:debug_assert#1",
+   Unproved "not modelled");
   ("core/src/eval/cache/lazy.rs::ThunkData::init_cached:assert#1",
    Unproved "revertible thunk protocol: cached is set by build_cached/init_cached before it is read; modelled in coq/Mech (thunk machine) but no theorem is stated about this unwrap");
   ("core/src/eval/cache/lazy.rs::ThunkData::closure:expect#1",
@@ -236,6 +270,8 @@ Definition ledger : list (string * coverage) := [
    ByTheorem "lexer_no_panic" _ lexer_no_panic "mode-switch panic: excluded by the alternation invariant of the mode stack for every raw token sequence");
   ("parser/src/lexer.rs::Iterator for Lexer<'input>::next:unwrap#1",
    ByTheorem "lexer_consumes" _ lexer_consumes "self.lexer is None only inside enter_*/leave_*, which restore it on every non-panicking path; those paths never panic");
+  ("parser/src/uniterm.rs::FixTypeVars<'ast> for Type<'ast>::fix_type_vars_env:unwrap#1",
+   Unproved "bound_vars.get(var).unwrap() right after bound_vars.insert(var): by inspection, environments never delete");
   ("parser/src/utils.rs::mk_span:cast#1",
    ByTheorem "mk_span_id" _ mk_span_id "usize as u32 truncates: identity for offsets of sources shorter than 4 GiB (hypothesis of the theorem; larger sources are not covered)");
   ("parser/src/utils.rs::mk_span:cast#2",
